@@ -58,8 +58,12 @@ func runSTLMesh(src *choice.Source, st *Stats) (fs []Finding) {
 	defer recoverTo("stl_mesh", &fs)
 	tris := genMesh(src, meshgen.AllowAll, st)
 	w := simio.NewWriter(simio.WriteFaults{})
+	guard := guardInput("stl_mesh", tris)
 	if err := model3d.WriteSTL(w, tris); err != nil {
 		return []Finding{{"stl_mesh|write-error", err.Error()}}
+	}
+	if f := guard(); f != nil {
+		return []Finding{*f}
 	}
 	if !bytes.Equal(w.Buf, model3d.EncodeSTL(tris)) {
 		fs = append(fs, Finding{"stl_mesh|encode-vs-write", "EncodeSTL and WriteSTL produced different bytes"})
@@ -328,8 +332,12 @@ func runPLYMesh(src *choice.Source, st *Stats) (fs []Finding) {
 		return [3]uint8{uint8(h), uint8(h >> 8), uint8(h >> 16)}
 	}
 	w := simio.NewWriter(simio.WriteFaults{})
+	guard := guardInput("ply_mesh", tris)
 	if err := model3d.WritePLY(w, tris, colorFunc); err != nil {
 		return []Finding{{"ply_mesh|write-error", err.Error()}}
+	}
+	if f := guard(); f != nil {
+		return []Finding{*f}
 	}
 	if !bytes.Equal(w.Buf, model3d.EncodePLY(tris, colorFunc)) {
 		fs = append(fs, Finding{"ply_mesh|encode-vs-write", "EncodePLY and WritePLY produced different bytes"})
